@@ -11,6 +11,8 @@ Against every organisation the case runs
   * `pfallc`   : prefetch over all collections -- canonical multiset of (md5, containment)
   * `xpfc`     : what `sourmash prefetch` reports (search.prefetch_database: the rows of Index.prefetch that pass
                  PrefetchResult.pass_threshold, score = f_match_query) -- canonical multiset, implementation-only
+  * `xsa`      : search_databases_with_abund_query (abundance query against abundance sketches, angular similarity)
+                 -- canonical multiset, implementation-only
   * `xgd/xnext`: gather in prefetch mode and in on-demand (`Index.peek`) mode -- per round md5 and all numbers
 and, for organisations made of list-like containers only (LinearIndex / zip keep insertion order), the exact
 `search` / `pfall` / `gd` / `next` ops of the gather stream, which the model predicts including order and ties.
@@ -30,7 +32,7 @@ from streams import gather as G  # noqa: E402
 MODULE = "gather"
 ADAPTER = "gather_impl.py"
 
-FLAVOURS = ["gather", "search", "gather", "mixed-search", "gather", "search"]
+FLAVOURS = ["gather", "search", "gather", "mixed-search", "gather", "search", "abund-search"]
 KINDS_LIST = ["lin", "lin", "zip", "lazy"]
 KINDS_X = ["sbt", "lca", "sql"]
 
@@ -65,7 +67,7 @@ def gen_case(rng, flavour):
     Q = set(rng.sample(Uq, min(nq, len(Uq))))
     if low and len([h for h in Q if h <= Mc]) < 3:
         Q |= set(rng.sample(low, min(len(low), 4)))
-    track = flavour == "gather" and rng.random() < 0.4
+    track = (flavour == "gather" and rng.random() < 0.4) or flavour == "abund-search"
     abund = {h: rng.choice([1, 1, 2, 3, 5, 20]) for h in Q} if track else None
     lines.append(G.sig_line(0, 1000, sq, Q, abund))
     structure = rng.choice(["nested", "chained", "chained", "tied", "duplicate", "covering", "random", "random"])
@@ -76,7 +78,7 @@ def gen_case(rng, flavour):
     has_ab = set()
     for i, hs in enumerate(sets):
         sc = rng.choice(db_scaleds)
-        ab = {h: rng.randint(1, 9) for h in hs} if rng.random() < 0.2 else None
+        ab = {h: rng.randint(1, 9) for h in hs} if (rng.random() < 0.2 or flavour == "abund-search") else None
         lines.append(G.sig_line(1 + i, 1 + i, sc, hs, ab))
         sk.append(1 + i)
         sc_of[1 + i] = sc
@@ -108,6 +110,8 @@ def gen_case(rng, flavour):
         for p in parts:
             one_scaled = len({sc_of[x] for x in p}) == 1
             kind = rng.choice(KINDS_X) if (exotic_ok and one_scaled and rng.random() < 0.6) else rng.choice(KINDS_LIST)
+            if flavour == "abund-search" and kind in ("sql", "lca"):
+                kind = "sbt"          # neither keeps abundances
             if kind == "sql" and any(x in has_ab for x in p):
                 kind = "sbt"          # SqliteIndex refuses sketches with abundance (documented)
             org.append((next_db, kind, p))
@@ -120,6 +124,16 @@ def gen_case(rng, flavour):
             else:
                 lines.append(f"xdb {slot} {kind} " + " ".join(map(str, p)))
     sc_cmp = max([sq] + db_scaleds)
+    if flavour == "abund-search":
+        # search_databases_with_abund_query (angular similarity of abundance sketches; what `sourmash search` does for
+        # an abundance query): implementation-only observation, every organisation must give the same rows
+        for _ in range(rng.randint(1, 2)):
+            tnum, tden = rng.choice([(0, 1), (0, 1), (1, 10), (1, 2), (1, 1)])
+            bo = int(rng.random() < 0.2)
+            for org in orgs:
+                dbs = " ".join(str(s) for s, _, _ in org)
+                lines.append(f"xsa {bo} {tnum} {tden} 0 {dbs}")
+        return lines
     if flavour in ("search", "mixed-search"):
         for _ in range(rng.randint(1, 3)):
             st = rng.choice(["j", "c", "m"])
@@ -214,7 +228,9 @@ PF_ASSERT_SIG = "C08:cli:prefetch-AssertionError:query-finer-than-db:threshold_b
 
 
 def oracle(case, impl):
-    bad = []
+    # (the order dependence of the GatherResult dict views is reported by C07)
+    bad = [b for b in G.view_violations(case, impl, "C08") if "gatherresultdict-after-prefetchresultdict" not in b[1] and "rejects-mutable-query" not in b[1]]
+    impl = [G.strip_views(o) if " V=" in o else o for o in impl]
     sigs, _ = G.parse_case(case)
     q = sigs.get(0)
     groups = {}          # key -> list of (idx, observation)
@@ -234,6 +250,9 @@ def oracle(case, impl):
             bad.append((idx, PF_ASSERT_SIG if finer else "C08:prefetch-database-raises:AssertionError",
                         f"`{op[:70]}`: search.prefetch_database raised AssertionError (a row of Index.prefetch below "
                         f"threshold_bp; regression of finding C08.5)"))
+            continue
+        if w[0] == "xsa":
+            groups.setdefault(("xsa",) + tuple(w[1:5]), []).append((idx, obs[2:]))
             continue
         if w[0] in ("searchc", "pfallc", "xpfc"):
             key = (w[0],) + tuple(w[1:6] if w[0] == "searchc" else w[1:3])
@@ -272,7 +291,18 @@ def oracle(case, impl):
             what = "search" if key[0] == "searchc" else "prefetch"
             sig = f"C08:{what}-depends-on-organisation"
             w = case[idx].split()
-            dbslots = [int(x) for x in (w[6:] if w[0] == "searchc" else w[3:])]
+            dbslots = [int(x) for x in (w[6:] if w[0] == "searchc" else w[5:] if w[0] == "xsa" else w[3:])]
+            if key[0] == "xsa":
+                what, sig = "search", "C08:abund-search-depends-on-organisation"
+                # md5 covers the hashes only: sketches with the same hashes and different abundances share the
+                # de-duplication key of search_databases_with_abund_query but not the angular similarity
+                pool = [k for k in sigs if 0 < k < 60]
+                if any(sigs[a]["md5"] == sigs[b]["md5"] and sigs[a]["hashes"] != sigs[b]["hashes"]
+                       for a in pool for b in pool if a < b):
+                    sig = "C08:abund-search-md5-dedup-ignores-abundance"
+                bad.append((idx, sig,
+                            f"`{case[idx][:70]}` gives {o[:160]} but the single collection gives {ref[:160]}"))
+                continue
             if key[0] == "xpfc":
                 what, sig = "prefetch", "C08:prefetch-database-depends-on-organisation"
             if key[0] == "searchc" and key[2] == "1" and o.startswith("ok") and ref.startswith("ok"):
@@ -344,6 +374,8 @@ def nontrivial(case, impl):
 
 def classify(case, impl, model, k):
     op = case[k].split()[0] if k < len(case) and case[k].split() else "?"
+    if k < len(impl) and " V=" in impl[k]:
+        return "C08:views-disagree:" + impl[k].split(" V=", 1)[1].split()[0]
     if k < len(model) and "L=DIFF" in model[k]:
         return f"C08:corr:list-sketch-instance-differs:{op}"
     return f"C08:corr:{op}"
